@@ -46,12 +46,12 @@ ASSUMPTIONS = ['bit flips inside complete JSON files are not injected (nothing i
 PROBES = ['restart_with_groups', 'restart_with_links', 'restart_with_joins', 'restart_by_reference', 'restart_relative_paths',
           'double_round_trip', 'second_generation_restart', 'fault_torn_write', 'fault_enospc', 'fault_open', 'fault_close',
           'fault_truncated_read', 'fault_missing_read', 'fault_empty_read', 'save_failed_loudly', 'metadata_unserialisable_filtered',
-          'datetime_component', 'categorical_component', 'multi_key_join']
+          'datetime_component', 'categorical_component', 'multi_key_join', 'session_saved_in_another_directory']
 
 LEAFKINDS = ['ineq', 'range', 'mrange', 'roi', 'roix', 'mask', 'slice', 'elem', 'catroi', 'cat', 'cat2d', 'catmr', 'flood', 'roi3d',
              'roind', 'empty']
 LINKKINDS = [('oneway', 2), ('oneway_inv', 2), ('identity', 1), ('same', 2), ('twoway', 2), ('multi', 1), ('aligned', 1), ('join', 2)]
-WEIGHTS = {'new': 3, 'new_file': 1.5, 'append': 3, 'remove': 0.7, 'add_derived': 1.5, 'add_link': 4, 'join': 1.5, 'new_group': 6,
+WEIGHTS = {'new': 3, 'new_file': 2.5, 'append': 3, 'remove': 0.7, 'add_derived': 1.5, 'add_link': 4, 'join': 1.5, 'new_group': 6,
            'set_state': 2, 'set_label': 1, 'set_style': 1, 'set_dstyle': 1, 'set_meta': 1.5, 'remove_group': 0.5, 'restart': 4,
            'remove_link': 0.5, 'reorder': 0.7}
 FAULTS = [None, None, None, None, 'torn', 'enospc', 'open_enoent', 'open_enospc', 'closefail', 'read_truncated', 'read_missing',
@@ -87,7 +87,7 @@ def generate(rng, cfg, guards):
             ops.append(['new', rng.randrange(len(W.SHAPES)), rng.randrange(1, 3), rng.randrange(10000), rng.chance(0.5), rng.pick([0, 0, 1, 2]),
                         rng.chance(0.4), rng.chance(0.3)])
         elif k == 'new_file':
-            ops.append([k, rng.randrange(3, 7), rng.randrange(1, 3), rng.randrange(10000)])
+            ops.append([k, rng.randrange(3, 7), rng.randrange(1, 3), rng.randrange(10000), rng.chance(0.7)])
         elif k in ('append', 'remove', 'remove_group', 'remove_link'):
             ops.append([k, r8()])
         elif k == 'add_derived':
@@ -114,8 +114,8 @@ def generate(rng, cfg, guards):
             ops.append([k, r8(), rng.randrange(1000)])
         else:
             fault = rng.pick(FAULTS) if with_faults else None
-            ops.append(['restart', rng.chance(0.7), rng.chance(0.6), fault, rng.randrange(1, 4000), rng.chance(0.3)])
-    ops.append(['restart', rng.chance(0.7), True, None, 0, rng.chance(0.5)])
+            ops.append(['restart', rng.chance(0.7), rng.chance(0.6), fault, rng.randrange(1, 4000), rng.chance(0.3), rng.pick([0, 0, 0, 1, 2, 3])])
+    ops.append(['restart', rng.chance(0.7), rng.chance(0.6), None, 0, rng.chance(0.5), rng.pick([0, 0, 1, 2, 3])])
     return {'knobs': {'guards': list(guards), 'prop': PROP}, 'ops': ops}
 
 
@@ -135,7 +135,7 @@ def simplify(case):
                 new = list(ops)
                 new[i] = op[:-1] + [sub]
                 yield dict(case, ops=new)
-        if op[0] == 'restart' and (op[3] is not None or op[5] or not op[1]):
+        if op[0] == 'restart' and (op[3] is not None or op[5] or not op[1] or len(op) > 6):
             new = list(ops)
             new[i] = ['restart', True, True, None, 0, False]
             yield dict(case, ops=new)
@@ -315,6 +315,8 @@ def _execute(case, res, tmp, fs):
                 write_csv(path, op[1], op[2], op[3])
                 d = load_data(path)
                 w.pool.append(d)
+                if len(op) > 4 and op[4]:
+                    dc.append(d)
             elif k == 'append':
                 d = w.pick_pool(op[1])
                 if d is not None:
@@ -451,7 +453,15 @@ def fingerprint(w, include_data):
 
 
 def restart(w, res, fs, op):
-    _, include_data, absolute, fault, fparam, double = op
+    _, include_data, absolute, fault, fparam, double = op[:6]
+    # storage layout knob: which directory the session file goes to (the data files stay where they were read from)
+    place = op[6] if len(op) > 6 else 0
+    sdir = os.path.join(w.tmp, ['', 'a', os.path.join('a', 'b'), 'c'][place])
+    sdir2 = os.path.join(w.tmp, ['', 'a', 'c', os.path.join('a', 'b')][place])
+    for dd in (sdir, sdir2):
+        os.makedirs(dd, exist_ok=True)
+    if place:
+        res.probe('session_saved_in_another_directory')
     dc = w.dc
     before = snapshot(w)
     has_file_data = any(hasattr(d, '_load_log') for d in dc)
@@ -469,7 +479,7 @@ def restart(w, res, fs, op):
     if w.generation >= 1:
         res.probe('second_generation_restart')
     w.nsave += 1
-    path = os.path.join(w.tmp, 's%d.glu' % w.nsave)
+    path = os.path.join(sdir, 's%d.glu' % w.nsave)
     write_fault = fault in ('torn', 'enospc', 'open_enoent', 'open_enospc', 'closefail')
     if write_fault:
         fs.arm(fault, budget=fparam, match='.glu')
@@ -557,7 +567,7 @@ def restart(w, res, fs, op):
     if double:
         res.probe('double_round_trip')
         w.nsave += 1
-        path2 = os.path.join(w.tmp, 's%d.glu' % w.nsave)
+        path2 = os.path.join(sdir2, 's%d.glu' % w.nsave)
         try:
             w.app.save_session(path2, include_data=include_data, absolute_paths=absolute)
         except Exception as e:
